@@ -67,21 +67,30 @@ class Subject:
 
 
 def check_mutant(sub, mutations, tnow):
-    """Differences between the yielded tree and the original must lie inside the mutated nodes.
+    """The yielded tree must be the original with EXACTLY the reported node(s) replaced by the reported
+    replacement(s): the expected tree is rebuilt from the pristine abstraction of the original by
+    substituting, at the path of every `mutation.node`, the abstraction of `mutation.replacement_node`.
     Returns (sites [(path, replacement)], error or None)."""
-    diffs = G.diff_sites(sub.t0, tnow)
     node_paths = []
     for m in mutations:
         p = sub.paths.get(id(m.node))
         if p is None:
             return [], f"mutation node {type(m.node).__name__} is not a node of the original tree"
         node_paths.append(p)
+    diffs = G.diff_sites(sub.t0, tnow)
     for d in diffs:
         if not any(d[:len(p)] == p for p in node_paths):
             return [], f"tree differs at {d}, outside the mutated node(s) at {node_paths}"
+    expected = sub.t0
     sites = []
-    for p in node_paths:
-        sites.append((p, G.subtree(tnow, p)))
+    for m, p in zip(mutations, node_paths):
+        r = sub.abs.tree(m.replacement_node)
+        expected = G.write(expected, p, r)
+        sites.append((p, r))
+    if expected != tnow:
+        where = G.diff_sites(expected, tnow)
+        return [], (f"the mutant is not the original with exactly the reported node(s) {node_paths} replaced by the reported "
+                    f"replacement(s): it differs from that tree at {where[:3]}")
     return sites, None
 
 
@@ -160,14 +169,14 @@ def run(ctx: vlib.Ctx):
     corpus = json.loads((vlib.VERIF / "corpus" / "C28.json").read_text())
     subjects = [("gen", c["name"], c["source"]) for c in corpus]
     corpus_scripts = {c["name"]: c["controller"] for c in corpus if "controller" in c}
-    n_gen, n_std = (3, 2) if ctx.quick else (24, 10)
+    n_gen, n_std = (2, 2) if ctx.quick else (24, 10)
     for i in range(n_gen):
         subjects.append(("gen", f"genmod{i}", G.gen_module(rng, rng.choice([1, 2] if ctx.quick else [1, 2, 3]))))
-    for i in range(4 if ctx.quick else 20):      # tiny modules: their trees are replayed in Coq
+    for i in range(3 if ctx.quick else 20):      # tiny modules: their trees are replayed in Coq
         subjects.append(("gen", f"tinymod{i}", G.gen_module(rng, 1, classes=rng.random() < 0.3)))
     std = list(G.STDLIB)
     rng.shuffle(std)
-    subjects += [("std", s, None) for s in (["bisect", "colorsys", "keyword"] if ctx.quick else std)][:n_std]
+    subjects += [("std", s, None) for s in (["bisect", "keyword"] if ctx.quick else std)][:n_std]
 
     cases, recs = [], []
     fails = 0
@@ -232,7 +241,7 @@ def run(ctx: vlib.Ctx):
         # --- K2 (a): generator protocol under next/close events, small trees only
         if small:
             cand = [oi for oi, s in enumerate(per_op_sites) if s]
-            for oi in rng.sample(cand, min(len(cand), 4 if ctx.quick else 8)):
+            for oi in (cand if name.startswith("corpus_") else rng.sample(cand, min(len(cand), 4 if ctx.quick else 8))):
                 sites = per_op_sites[oi]
                 n = len(sites)
                 style = rng.choice(["exhaust", "close-mid", "close-first", "close-fresh", "close-late"])
@@ -377,7 +386,7 @@ def run(ctx: vlib.Ctx):
             hom_case = None
 
         # --- the real MutationController on call sequences count / advance RNG / count / create_mutants
-        if kind == "gen" and sub.size <= (700 if ctx.quick else 1300):
+        if kind == "gen" and sub.size <= (500 if ctx.quick else 1300):
             runs = []
             for cs in corpus_scripts.get(name, []):
                 runs.append((cs["mutator"], [tuple(x) for x in cs["script"]], cs["seed"]))
